@@ -79,6 +79,8 @@ class Layout:
         # file (default), './'-relative, by absolute path or by file: URL
         self.styled = styled
         self.ref_styles = {}
+        # files written without a line terminator after their last line
+        self.unterminated = set()
 
     def new_path(self, rng, place=None):
         self.serial += 1
@@ -114,6 +116,8 @@ class Layout:
                     l = l[2] + "%include " + ref
                 r.append(l)
             out[path] = "".join(x + "\n" for x in r)
+            if path in self.unterminated and out[path].endswith("\n"):
+                out[path] = out[path][:-1]
         return out
 
 
